@@ -103,7 +103,8 @@ DOMAIN_TEMPLATE = (
     r"^(?:https?:)?(?://)?(?:[^\s/?#]*@)?%s(?::\d*)?(?:[/?#]|\s*$)"
 )
 
-SCRIPT_TAG = r"<script\b[^<]*(?:(?!<\/script>)<[^<]*)*<\/script>"
+# NOTE: an end tag can have whitespace before its ">" ("</script >")
+SCRIPT_TAG = r"<script\b[^<]*(?:(?!<\/script\s*>)<[^<]*)*<\/script\s*>"
 SCRIPT_TAG_BINARY = SCRIPT_TAG.encode()
 
 # NOTE: re.A so that re.I folds ascii letters only, like the binary pattern
